@@ -60,17 +60,54 @@ fn screen_here() -> Result<pools::Screened, String> {
 }
 
 fn build_pools() -> Pools {
-    match proc::in_child(std::time::Duration::from_secs(300), screen_here) {
-        Ok(Ok(s)) => Pools::from_screened(s),
-        Ok(Err(m)) => {
+    // a worker started by the coordinator reads the pools the coordinator screened (once, in its own
+    // forked child) instead of screening again
+    if let Ok(path) = std::env::var("VERIF_E2_POOLS") {
+        match std::fs::read_to_string(&path).ok().and_then(|s| serde_json::from_str::<pools::Screened>(&s).ok()) {
+            Some(s) => return Pools::from_screened(s),
+            None => {
+                println!("harness error: cannot read the screened pools from {path}");
+                std::process::exit(2)
+            }
+        }
+    }
+    screen_pools_to(None)
+}
+
+fn screen_pools_to(save: Option<&std::path::Path>) -> Pools {
+    match proc::in_child(simcore::run_timeout().max(std::time::Duration::from_secs(60)), screen_here) {
+        Ok(Ok(s)) => {
+            if let Some(p) = save {
+                if let Err(e) = std::fs::write(p, serde_json::to_string(&s).unwrap_or_default()) {
+                    println!("harness error: cannot write {}: {e}", p.display());
+                    std::process::exit(2)
+                }
+            }
+            Pools::from_screened(s)
+        }
+        // The pre-screen is the first sequential use of the library in a fresh process. If it does not come back
+        // (hang), dies (crash) or is aborted by the simulator (deadlock among threads the library itself started,
+        // a panic outside any evaluation), no result was returned for operations that have one on the unchanged
+        // tree: that is reported as a violation of the simulated property, like a run stopped by the watchdog.
+        Ok(Err(m)) => prescreen_violation(if m.contains("deadlock") { "deadlock" } else { "panic" }, &m),
+        Err(proc::ChildErr::Hang) => prescreen_violation("hang", "the sequential pre-screen of the expression pool did not finish"),
+        Err(proc::ChildErr::Crashed(why)) => prescreen_violation("crash", &format!("the process running the sequential pre-screen died: {why}")),
+        Err(proc::ChildErr::Harness(m)) => {
             println!("harness error: pre-screening the expression pool failed: {m}");
             std::process::exit(2)
         }
-        Err(e) => {
-            println!("harness error: pre-screening the expression pool failed: {e:?}");
-            std::process::exit(2)
-        }
     }
+}
+
+fn prescreen_violation(class: &str, detail: &str) -> ! {
+    let property = if std::env::args().nth(1).as_deref() == Some("c10") || std::env::args().nth(2).as_deref() == Some("c10") { "C10" } else { "C18" };
+    let seed = simcore::verif_seed();
+    let path = simcore::verif_root().join("replays").join(format!("{property}-seed{seed}-prescreen.json"));
+    simcore::write_json(&path, &json!({"property": property, "seed": seed, "class": class, "detail": detail, "scenario": {"engine": "e2", "prescreen": true}}));
+    println!("VIOLATION property={property} replay={}", path.display());
+    println!("  class={class} (sequential pre-screen of the expression pool, fresh process)");
+    println!("  detail: {detail}");
+    std::process::exit(1)
 }
 
 struct Env {
@@ -291,6 +328,9 @@ fn batch(mode: &'static str, tier: &str) -> i32 {
     let _ = std::fs::create_dir_all(stopfile.parent().unwrap());
     let _ = std::fs::remove_file(&stopfile);
     let exe = std::env::current_exe().expect("current_exe");
+    // the expression pool is screened once, here; the workers read the result
+    let pools_file = simcore::verif_root().join("target").join(format!("e2-pools-{}-{}.json", mode, std::process::id()));
+    let _ = screen_pools_to(Some(&pools_file));
     let total = Mutex::new(Agg::default());
     let first_use: Mutex<std::collections::BTreeSet<u64>> = Default::default();
     let pools_info: Mutex<Option<Value>> = Mutex::new(None);
@@ -298,10 +338,11 @@ fn batch(mode: &'static str, tier: &str) -> i32 {
     let worker_failed = std::sync::atomic::AtomicBool::new(false);
     std::thread::scope(|s| {
         for w in 0..nw {
-            let (exe, stopfile, total, first_use, pools_info, ref_execs, worker_failed, known) = (&exe, &stopfile, &total, &first_use, &pools_info, &ref_execs, &worker_failed, &known);
+            let (exe, stopfile, total, first_use, pools_info, ref_execs, worker_failed, known, pools_file) = (&exe, &stopfile, &total, &first_use, &pools_info, &ref_execs, &worker_failed, &known, &pools_file);
             s.spawn(move || {
                 let mut child = match Command::new(exe)
                     .args(["worker", mode, &runs.to_string(), &w.to_string(), &nw.to_string(), &stopfile.display().to_string()])
+                    .env("VERIF_E2_POOLS", pools_file.as_os_str())
                     .stdin(Stdio::null())
                     .stdout(Stdio::piped())
                     .stderr(Stdio::null())
@@ -344,6 +385,7 @@ fn batch(mode: &'static str, tier: &str) -> i32 {
         }
     });
     let _ = std::fs::remove_file(&stopfile);
+    let pools_file_cleanup = pools_file.clone();
     if worker_failed.load(std::sync::atomic::Ordering::Relaxed) {
         println!("harness error: a worker process did not complete");
         return 2;
@@ -356,7 +398,7 @@ fn batch(mode: &'static str, tier: &str) -> i32 {
     // different worker count) re-executes the first runs; fingerprints must be identical
     if agg.violations.is_empty() {
         let n = runs.min(if tier == "thorough" { 128 } else { 32 });
-        let out = Command::new(&exe).args(["worker", mode, &n.to_string(), "0", "1", "/nonexistent-stopfile"]).stdin(Stdio::null()).stderr(Stdio::null()).output();
+        let out = Command::new(&exe).args(["worker", mode, &n.to_string(), "0", "1", "/nonexistent-stopfile"]).env("VERIF_E2_POOLS", &pools_file).stdin(Stdio::null()).stderr(Stdio::null()).output();
         match out {
             Ok(o) => {
                 let mut fps = std::collections::BTreeMap::new();
@@ -416,6 +458,7 @@ fn batch(mode: &'static str, tier: &str) -> i32 {
         exhaustive: None,
     };
     // the evidence file is assembled by bin/merge-evidence from this part and the other leg's part
+    let _ = std::fs::remove_file(&pools_file_cleanup);
     simcore::finish_as(rep, agg, &format!("{property}.shuttle.part"))
 }
 
@@ -477,6 +520,12 @@ fn fold(rec: &Value, agg: &mut Agg, first_use: &Mutex<std::collections::BTreeSet
 
 fn replay(path: &str) -> i32 {
     let v = simcore::read_json(std::path::Path::new(path));
+    if v["scenario"]["prescreen"] == json!(true) {
+        // re-run the pre-screen: it either reports the violation again (and exits 1) or succeeds
+        let _ = screen_pools_to(None);
+        println!("replay of {path}: no violation (the sequential pre-screen completed)");
+        return 0;
+    }
     let wv = v["scenario"].get("minimised").cloned().unwrap_or_else(|| v["scenario"].clone());
     let w: Workload = match serde_json::from_value(wv) {
         Ok(w) => w,
